@@ -484,7 +484,9 @@ def validation(s):
         n += 1
         if accepts(doc):
             return core.refuted("finite", "configuration without the %s section is accepted" % sec, witness_id="missing:" + sec, replay={"reproduced": True})
-    wrong_type = {"string": 5, "integer": "x", "number": "x", "boolean": "x", "object": 5, "array": 5}
+    # values of every OTHER JSON type (JSON Schema: a boolean is not a number, 1 is not a boolean, null is nothing but null)
+    wrong_type = {"string": [5, True, None, ["x"]], "integer": ["x", True, False, None, [1]], "number": ["x", True, False, None, [1.0]],
+                  "boolean": ["x", 1, 0, None], "object": [5, "x", [], True], "array": [5, "x", {}, True]}
     fields = 0
     for path, sub in walk_schema(schema, schema):
         if not path or path == ("output",):
@@ -492,12 +494,13 @@ def validation(s):
         fields += 1
         t = sub.get("type")
         if t in wrong_type:
-            doc = copy.deepcopy(default)
-            set_path(doc, path, wrong_type[t])
-            n += 1
-            if accepts(doc):
-                return core.refuted("finite", "wrongly typed %s = %r accepted" % ("/".join(path), wrong_type[t]), witness_id="type:" + "/".join(path),
-                                    replay={"reproduced": True})
+            for wrong in wrong_type[t]:
+                doc = copy.deepcopy(default)
+                set_path(doc, path, wrong)
+                n += 1
+                if accepts(doc):
+                    return core.refuted("finite", "wrongly typed %s = %r accepted (documented type: %s)" % ("/".join(path), wrong, t),
+                                        witness_id="type:%s:%r" % ("/".join(path), wrong), replay={"reproduced": True})
             if t == "integer":
                 doc = copy.deepcopy(default)
                 set_path(doc, path, 2.5)
